@@ -8,12 +8,12 @@ import (
 	"testing"
 	"unicode/utf8"
 
+	"berty.tech/go-ipfs-log/io"
 	orbitdb "berty.tech/go-orbit-db"
 	"berty.tech/go-orbit-db/accesscontroller"
 	"berty.tech/go-orbit-db/address"
 	"berty.tech/go-orbit-db/iface"
 	"berty.tech/go-orbit-db/utils"
-	"berty.tech/go-ipfs-log/io"
 	cbornode "github.com/ipfs/go-ipld-cbor"
 	"pgregory.net/rapid"
 	"verif/harness/world"
@@ -22,9 +22,9 @@ import (
 // C14 — addresses are deterministic, self-describing and reopen the same database.
 
 type TupleC14 struct {
-	Name  string `json:"name"`
-	Type  string `json:"type"`
-	List  []int  `json:"list"` // peer indices; -1 = "*"; empty = none given (creator default)
+	Name string `json:"name"`
+	Type string `json:"type"`
+	List []int  `json:"list"` // peer indices; -1 = "*"; empty = none given (creator default)
 }
 
 type CaseC14 struct {
